@@ -1,5 +1,242 @@
 package main
 
-// thorough adds the deeper tier: re-run under other GOOS/GOARCH and compare verdicts.
+import (
+	"fmt"
+	"io"
+	"os"
+	"os/exec"
+	"path/filepath"
+	"regexp"
+	"runtime"
+	"runtime/debug"
+	"sort"
+	"strings"
+)
+
+// thorough adds the deeper tier on top of the quick verdict (which is decided
+// first, on /repo alone):
+//  1. platform stability: the program is re-loaded under GOOS=windows and
+//     GOARCH=386 and the property's rules must reach the same verdicts;
+//  2. self-test of the checker against its corpora: every applicable mutant
+//     (own mutants + independently seeded ones) must add a report for this
+//     property, every behaviour-preserving edit must add none. Self-test
+//     results are recorded in the evidence and printed, but never change the
+//     exit status: a checker defect is not a violation of btcwallet.
 func thorough(c *Ctx, spec *propSpec, extra map[string]interface{}) {
+	base := failingKeys(c)
+	// ---- 1. platform stability ----
+	var plats []map[string]interface{}
+	for _, pf := range [][2]string{{"windows", ""}, {"", "386"}} {
+		name := "GOOS=" + pf[0] + " GOARCH=" + pf[1]
+		prog, err := Load(c.P.RepoDir, pf[0], pf[1])
+		if err != nil {
+			c.Obls = append(c.Obls, Obligation{Rule: "infra", Construct: "platform-load " + name, OK: false, Detail: err.Error()})
+			continue
+		}
+		c2 := newCtx(prog, spec.ID)
+		func() {
+			defer func() {
+				if r := recover(); r != nil {
+					c2.Obls = append(c2.Obls, Obligation{Rule: "infra", Construct: "checker-panic", OK: false, Detail: fmt.Sprint(r)})
+				}
+			}()
+			spec.Run(c2)
+		}()
+		got := failingKeys(c2)
+		same := equalSets(base, got)
+		plats = append(plats, map[string]interface{}{"platform": name, "obligations": len(c2.Obls), "same_verdicts": same, "packages": len(prog.Pkgs)})
+		if !same {
+			c.Obls = append(c.Obls, Obligation{Rule: "infra", Construct: "platform-stability " + name, OK: false,
+				Detail: fmt.Sprintf("verdicts differ under %s: default %v vs %v", name, keysOf(base), keysOf(got))})
+		} else {
+			c.Obls = append(c.Obls, Obligation{Rule: "platform", Construct: "same-verdicts " + name, OK: true, Requires: "the rules must reach identical verdicts under other GOOS/GOARCH (build-tagged files could hide code from the analysis)"})
+		}
+		prog = nil
+		c2 = nil
+		runtime.GC()
+		debug.FreeOSMemory()
+	}
+	extra["platforms"] = plats
+
+	// ---- 2. self-test ----
+	if os.Getenv("VERIF_NO_SELFTEST") != "" {
+		return
+	}
+	st := selftest(c, spec, base)
+	extra["selftest"] = st
+}
+
+func failingKeys(c *Ctx) map[string]bool {
+	out := map[string]bool{}
+	for _, o := range c.Obls {
+		if !o.OK {
+			out[o.Rule+"|"+o.Construct] = true
+		}
+	}
+	return out
+}
+
+func equalSets(a, b map[string]bool) bool {
+	if len(a) != len(b) {
+		return false
+	}
+	for k := range a {
+		if !b[k] {
+			return false
+		}
+	}
+	return true
+}
+
+func keysOf(m map[string]bool) []string {
+	var out []string
+	for k := range m {
+		out = append(out, k)
+	}
+	sort.Strings(out)
+	return out
+}
+
+var reportRe = regexp.MustCompile(`(?m)^REPORT (\S+) (\S+): (.*?) — `)
+
+type selftestEntry struct {
+	Patch    string   `json:"patch"`
+	Kind     string   `json:"kind"` // mutant | seeded | neutral
+	Result   string   `json:"result"`
+	NewFails []string `json:"new_reports,omitempty"`
+}
+
+// selftest runs this binary on patched scratch copies of the repository.
+func selftest(c *Ctx, spec *propSpec, base map[string]bool) map[string]interface{} {
+	vdir := verifDir()
+	var files []struct{ path, kind string }
+	add := func(glob, kind string) {
+		m, _ := filepath.Glob(glob)
+		sort.Strings(m)
+		for _, f := range m {
+			files = append(files, struct{ path, kind string }{f, kind})
+		}
+	}
+	add(filepath.Join(vdir, "mutants", spec.ID, "*.patch"), "mutant")
+	add(filepath.Join(vdir, "seeded", spec.ID+"-*", "patch.diff"), "seeded")
+	add(filepath.Join(vdir, "mutants", "neutral", "*.patch"), "neutral")
+	add(filepath.Join(vdir, "neutral", "*", "patch.diff"), "neutral")
+	exe, err := os.Executable()
+	if err != nil {
+		return map[string]interface{}{"ok": false, "error": err.Error()}
+	}
+	var entries []selftestEntry
+	ok := true
+	caught, missed, quiet, alarms, skipped := 0, 0, 0, 0, 0
+	for _, f := range files {
+		e := selftestEntry{Patch: strings.TrimPrefix(f.path, vdir+"/"), Kind: f.kind}
+		scratch, err := os.MkdirTemp("", "vcheck-self-")
+		if err != nil {
+			e.Result = "error: " + err.Error()
+			entries = append(entries, e)
+			continue
+		}
+		func() {
+			defer os.RemoveAll(scratch)
+			repoCopy := filepath.Join(scratch, "repo")
+			if err := copyTree(c.P.RepoDir, repoCopy); err != nil {
+				e.Result = "error: " + err.Error()
+				return
+			}
+			ap := exec.Command("git", "apply", "--whitespace=nowarn", f.path)
+			ap.Dir = repoCopy
+			if out, err := ap.CombinedOutput(); err != nil {
+				ap2 := exec.Command("patch", "-p1", "-s", "-i", f.path)
+				ap2.Dir = repoCopy
+				if out2, err2 := ap2.CombinedOutput(); err2 != nil {
+					e.Result = "skipped (patch does not apply to the current tree)"
+					_ = out
+					_ = out2
+					skipped++
+					return
+				}
+			}
+			ev := filepath.Join(scratch, "ev")
+			os.MkdirAll(ev, 0o755)
+			cmd := exec.Command(exe, "-property", spec.ID, "-tier", "quick")
+			cmd.Env = append(os.Environ(), "VERIF_REPO="+repoCopy, "VERIF_EVIDENCE_DIR="+ev, "VERIF_DIR="+vdir)
+			out, _ := cmd.CombinedOutput()
+			got := map[string]bool{}
+			for _, m := range reportRe.FindAllStringSubmatch(string(out), -1) {
+				got[m[2]+"|"+m[3]] = true
+			}
+			if strings.Contains(string(out), "LOAD-FAILURE") {
+				got["infra|load-failure"] = true
+			}
+			var newFails []string
+			for k := range got {
+				if !base[k] {
+					newFails = append(newFails, k)
+				}
+			}
+			sort.Strings(newFails)
+			e.NewFails = newFails
+			switch f.kind {
+			case "neutral":
+				if len(newFails) == 0 {
+					e.Result = "quiet"
+					quiet++
+				} else {
+					e.Result = "FALSE-ALARM"
+					alarms++
+					ok = false
+				}
+			default:
+				if len(newFails) > 0 {
+					e.Result = "caught"
+					caught++
+				} else {
+					e.Result = "MISSED"
+					missed++
+					ok = false
+				}
+			}
+		}()
+		if strings.HasPrefix(e.Result, "MISSED") || strings.HasPrefix(e.Result, "FALSE-ALARM") {
+			fmt.Printf("SELFTEST-MISS property=%s %s %s %v\n", spec.ID, e.Result, e.Patch, e.NewFails)
+		}
+		entries = append(entries, e)
+	}
+	fmt.Printf("SELFTEST property=%s mutants caught=%d missed=%d neutral quiet=%d false-alarm=%d skipped=%d\n", spec.ID, caught, missed, quiet, alarms, skipped)
+	return map[string]interface{}{"ok": ok, "caught": caught, "missed": missed, "neutral_quiet": quiet, "false_alarms": alarms, "skipped": skipped, "entries": entries,
+		"note": "self-test never changes the exit status: the verdict on the property is decided by the analysis of /repo alone"}
+}
+
+func copyTree(src, dst string) error {
+	return filepath.Walk(src, func(path string, info os.FileInfo, err error) error {
+		if err != nil {
+			return err
+		}
+		rel, _ := filepath.Rel(src, path)
+		if rel == ".git" || strings.HasPrefix(rel, ".git"+string(filepath.Separator)) {
+			if info.IsDir() {
+				return filepath.SkipDir
+			}
+			return nil
+		}
+		target := filepath.Join(dst, rel)
+		if info.IsDir() {
+			return os.MkdirAll(target, 0o755)
+		}
+		if info.Mode()&os.ModeSymlink != 0 {
+			return nil
+		}
+		in, err := os.Open(path)
+		if err != nil {
+			return err
+		}
+		defer in.Close()
+		out, err := os.OpenFile(target, os.O_CREATE|os.O_WRONLY|os.O_TRUNC, info.Mode().Perm())
+		if err != nil {
+			return err
+		}
+		defer out.Close()
+		_, err = io.Copy(out, in)
+		return err
+	})
 }
